@@ -31,6 +31,12 @@ MODULES = {"logger", "logging", "copy", "json", "inspect", "asyncio", "threading
            "uuid", "time", "functools"}
 
 
+class ContractFn:
+    """A module-level function of the library that has a sidecar contract (called by bare name)."""
+    def __init__(self, contract):
+        self.contract = contract
+
+
 class ExprMixin:
     # ------------------------------------------------------------------ utils
     def truthy(self, v) -> Any:
@@ -232,6 +238,9 @@ class ExprMixin:
         ok, val = self.resolve_module_const(n)
         if ok:
             return [(st, val)]
+        c = w.by_method.get(n)
+        if c is not None and "." not in c.target.split(":")[1] and n not in BUILTINS:
+            return [(st, ContractFn(c))]        # a module-level function under contract
         if n in BUILTINS:
             return [(st, Builtin(n))]
         if n in MODULES:
